@@ -166,6 +166,8 @@ NOTES = {
     'C03-from-vector-bond-qnums-before-truncation': 'round 4, first run: MISSED by C03. from_vector cases check the class invariant of the result, use it in a sum, and include basis vectors',
     'C14-lanczos-shared-workspace': 'round 4, first run: MISSED. r_C14 calls each routine a second time with arguments of the same size and compares the first result; engine F has the obligation `no_state_kept_across_calls` (module-level mutable variables, globals, mutable defaults, caching decorators in the reachable pytenet functions)',
     'C15-eigh-krylov-select-range': 'round 4, first run: MISSED. r_C15 asks for more eigenpairs than the Krylov space has',
+    'C13-from-vector-weights-left': 'round 4, first run: MISSED (the vectors of r_C13 were too short, n <= 5). Adversarial family added: a dominant weakly entangled branch plus a low-weight highly entangled one, n = 12, 13',
+    'C17-automaton-start-qnum-zero': 'round 4, first run: MISSED (the statement of C17 does not mention node labels; the change breaks the later graph-to-MPO conversion). r_C17 now compares the quantum numbers of the terminal nodes of the unrolled graph with those of the automaton terminals',
     'C06-zero-coeff-filter-tolerance': 'first run: MISSED. r_C06 now includes parameter points scaled by 1e-9 ... 1e+12 (every parameter value is legal)',
 }
 
